@@ -704,3 +704,6 @@ def install(sess):
                 if c.to_pylist() != [orig[r - off[j]] for r in want]: return f"key chunk {i} is not the part of original chunk {j} inside the slice (first_chunk_in={first}): the pointer of chunk {j} would be applied to other rows"
         return None
     sess.wrap("groupby_lib.groupby.core", "GroupBy._resolve_mask_argument_into_chunks", ensures=post_resolve)
+
+
+LEVEL_TEXT = "Modular: the kernels' postconditions are stated over the selected subsequence and proved (P tier, L-filter); the mask plumbing between the public methods and the kernels (boolean -> nonzero, slice -> views, positions -> boolean for chunked keys, per-chunk mask split, first chunk inside a slice, observed labels under a mask, mask[indexer] for group-sorted output) is pandas/pyarrow glue and is decided by a run-time relational contract taken from the property statement: the masked call equals the same call on the filtered inputs, for every selection of a bounded-exhaustive input space and every spelling of the selection (bounded, not proved). ROUND 3: the 'first chunk inside a slice' (_find_first_chunk_in_slice) and the per-global-code counts under a mask on chunked keys (count_ikey, which decides the observed labels) are deductive (P tier) - count_ikey under ASSUMED contracts of its two glue callees, listed in the evidence."
